@@ -492,4 +492,66 @@ def create (v : Variant) (dir : Bool) : State := (construct v (init dir)).1
 /-- the group a fresh process would see: `JobGroup(name)._jobs` -/
 def reload (v : Variant) (s : State) : List Job := (construct v s).1.mem
 
+/-! ## File primitives of `PersistentData` over many file names
+
+`JobGroup` keeps one file per group *name*: `__init__` decides between "re-open" and "create" with
+`has_file(<dir>/<name>.jgrp)`, loads with `read_file`, saves with `write_file`; `delete_job_group` uses
+`delete_file`.  `write_file`/`read_file`/`delete_file` derive the path with `get_full_path`, `has_file`
+with its own `os.path.join`.  The single `disk` of `State` above is *the file under the group's name*;
+that reading is only faithful if the four primitives form a store keyed by the name.  File names,
+paths and contents are natural-number tokens. -/
+namespace FS
+
+/-- the path each primitive derives from a file name -/
+structure Paths where
+  full : Nat → Nat     -- `get_full_path`: `write_file`, `read_file`, `delete_file`
+  look : Nat → Nat     -- `has_file`'s own `os.path.join(self._directory, filename)`
+
+/-- the code as it is: both are `os.path.join(directory, name)`; distinct names, distinct paths -/
+def real : Paths := ⟨id, id⟩
+
+/-- the primitives agree on the path and distinct names never share one -/
+def Coherent (k : Paths) : Prop := (∀ n, k.look n = k.full n) ∧ (∀ a b, k.full a = k.full b → a = b)
+
+/-- a variant in which `get_full_path` alone makes names "portable" (name `2k+1`, which holds a
+character some platform refuses, is stored under the path of its twin `2k`) while `has_file` keeps
+its own join — regression witness for the two-site shape -/
+def portable : Paths := ⟨fun n => n - n % 2, id⟩
+
+/-- directory content: path ↦ content -/
+abbrev Store := Nat → Option Nat
+
+def empty : Store := fun _ => none
+
+def writeFile (k : Paths) (s : Store) (n c : Nat) : Store := fun p => if p = k.full n then some c else s p
+def deleteFile (k : Paths) (s : Store) (n : Nat) : Store := fun p => if p = k.full n then none else s p
+/-- `none` = `FileNotFoundError` -/
+def readFile (k : Paths) (s : Store) (n : Nat) : Option Nat := s (k.full n)
+def hasFile (k : Paths) (s : Store) (n : Nat) : Bool := (s (k.look n)).isSome
+
+inductive Op where
+  | write (n c : Nat)
+  | delete (n : Nat)
+  | read (n : Nat)
+  | has (n : Nat)
+  | openGroup (n : Nat)    -- `JobGroup(name)`: `has_file` ? `read_file` : `write_file(<empty group> = 0)`
+  deriving DecidableEq, Repr
+
+inductive Obs where
+  | done
+  | content (c : Option Nat)
+  | found (b : Bool)
+  deriving DecidableEq, Repr
+
+def step (k : Paths) (s : Store) : Op → Store × Obs
+  | .write n c => (writeFile k s n c, .done)
+  | .delete n => (deleteFile k s n, .done)
+  | .read n => (s, .content (readFile k s n))
+  | .has n => (s, .found (hasFile k s n))
+  | .openGroup n =>
+    if hasFile k s n then (s, .content (readFile k s n))
+    else (writeFile k s n 0, .content (some 0))
+
+end FS
+
 end PM.C19
